@@ -311,6 +311,9 @@ def prepare_dump(data: IOData, allow_changes: bool, filename: str) -> IOData:
         raise PrepareDumpError("The Molekel format requires an orbital basis set.", filename)
     if data.mo.kind == "generalized":
         raise PrepareDumpError("Cannot write Molekel file with generalized orbitals.", filename)
+    if data.charge is not None and abs(data.charge - round(data.charge)) > 1e-5:
+        # $CHAR_MULT holds integers; the reader checks the occupations against this charge.
+        raise PrepareDumpError("Cannot write Molekel file with a non-integer charge.", filename)
     data = prepare_unrestricted_aminusb(data, allow_changes, filename, "Molekel")
     return prepare_segmented(data, False, allow_changes, filename, "Molekel")
 
